@@ -426,13 +426,24 @@ void profile_blast(RunCtx& ctx)
                 if (idx >= decls.size())
                     idx = decls.size() - 1;
                 o.mask_decl_templ = b.kind == BlockRef::GDECL ? -1 : doc_templ(b.templ);
-                o.keep_syms = (int)idx + (b.kind == BlockRef::TDECL ? (int)pristine.templs[b.templ].params.size() : 0);
+                // (the declaration of a dynamic template adds an instance symbol, which the prefix dump leaves out)
+                auto counts = [](const std::vector<MDecl>& ds, size_t n, int& syms, int& vars, int& funs) {
+                    for (size_t k = 0; k < n && k < ds.size(); ++k) {
+                        if (!(ds[k].kind == MDecl::OTHER && ds[k].text.rfind("dynamic ", 0) == 0))
+                            ++syms;
+                        if (ds[k].kind == MDecl::VAR)
+                            ++vars;
+                        else if (ds[k].kind == MDecl::FUN)
+                            ++funs;
+                    }
+                };
+                o.keep_syms = b.kind == BlockRef::TDECL ? (int)pristine.templs[b.templ].params.size() : 0;
                 o.keep_vars = o.keep_funs = 0;
-                for (size_t k = 0; k < idx; ++k) {
-                    if (decls[k].kind == MDecl::VAR)
-                        ++o.keep_vars;
-                    else if (decls[k].kind == MDecl::FUN)
-                        ++o.keep_funs;
+                counts(decls, idx, o.keep_syms, o.keep_vars, o.keep_funs);
+                if (b.kind == BlockRef::TDECL && !pristine.sys_decls.empty()) {
+                    // the variables of the <system> block join the globals but follow the faulted block in the text
+                    o.gkeep_syms = o.gkeep_vars = o.gkeep_funs = 0;
+                    counts(pristine.gdecls, pristine.gdecls.size(), o.gkeep_syms, o.gkeep_vars, o.gkeep_funs);
                 }
                 std::string want = dump_document(*ref_builder.doc, o);
                 std::string got = dump_document(*s.doc, o);
